@@ -283,6 +283,61 @@ def build(clean=False, jobs=16, timeout=3000):
     return rc == 0, out
 
 
+def _deps():
+    """module dependency graph of the development from coqdep: {file: [files it requires]}"""
+    files = [str(f.relative_to(COQ)) for f in coq_sources()]
+    rc, out = sh(['coqdep', '-Q', '.', 'PB'] + files, cwd=COQ, timeout=120)
+    g = {}
+    for line in out.splitlines():
+        if ':' not in line:
+            continue
+        lhs, rhs = line.split(':', 1)
+        tgt = [t for t in lhs.split() if t.endswith('.vo')]
+        if not tgt:
+            continue
+        src = tgt[0][:-1]
+        g[src] = [d[:-1] for d in rhs.split() if d.endswith('.vo') and not d.startswith('/')]
+    return g
+
+
+def build_for(targets, timeout=1800):
+    """Compile (only) the given files and what they depend on, if stale; one builder at a time (flock),
+    so a file someone else is editing cannot break this property's build."""
+    import fcntl
+    lock = open(COQ / '.build.lock', 'w')
+    fcntl.flock(lock, fcntl.LOCK_EX)
+    try:
+        g = _deps()
+        order, seen = [], set()
+
+        def visit(f):
+            if f in seen:
+                return
+            seen.add(f)
+            for d in g.get(f, []):
+                visit(d)
+            order.append(f)
+        for t in targets:
+            if (COQ / t).exists():
+                visit(t)
+        rebuilt = set()
+        for f in order:
+            src, vo = COQ / f, (COQ / f).with_suffix('.vo')
+            stale = (not vo.exists()) or vo.stat().st_mtime < src.stat().st_mtime or \
+                any(d in rebuilt or (COQ / d).with_suffix('.vo').stat().st_mtime > vo.stat().st_mtime
+                    for d in g.get(f, []))
+            if stale:
+                rc, out = sh(['timeout', str(timeout), 'coqc'] + COQFLAGS + ['-w', '-all', str(src)], cwd=COQ,
+                             timeout=timeout + 30)
+                if rc != 0:
+                    return False, '%s: %s' % (f, out[-1500:])
+                rebuilt.add(f)
+        return True, 'rebuilt: %s' % sorted(rebuilt)
+    finally:
+        fcntl.flock(lock, fcntl.LOCK_UN)
+        lock.close()
+
+
 def theorem_names(pid):
     txt = strip_comments((COQ / 'Properties' / ('%s.v' % pid)).read_text())
     return re.findall(r'^\s*Theorem\s+([A-Za-z0-9_\']+)', txt, flags=re.M)
@@ -458,7 +513,7 @@ def run_property(mod, tier, seed):
     lines = []          # VIOLATION / KNOWN-FINDING lines
     violations = 0
     # 1. proof obligations
-    ok, out = build()
+    ok, out = build_for(['Properties/%s.v' % pid] + ['%s.v' % r.replace('.', '/') for r in mod.REQUIRES])
     audit = audit_property(pid) if ok else {'theorems': theorem_names(pid), 'discharged': [],
                                             'broken': [('build', out[-800:])], 'axioms': {}}
     # 2. correspondence + predicates on the implementation
